@@ -39,6 +39,115 @@ struct sexp_pollfds_t {
 
 #if SEXP_USE_GREEN_THREADS
 
+#if SEXP_USE_VERIF_HOOKS
+/* verification hook H4 (trace part; the slice lengths are injected in vm.c).  With
+ * CHIBI_VERIF_SCHED_TRACE=<file> every thread primitive and every scheduler call appends one
+ * line "<op> <args> -> <result> | C <current> F <run queue> B <back> P <paused list> T
+ * <thread:waitp timeoutp live:event:wake time>... [M <mutex:locked:owner>]" describing the
+ * state it leaves.  CHIBI_VERIF_SCHED_CLOCK=<sec> replaces the clock of this file by a
+ * virtual one (starts at <sec>, +1us per reading, usleep advances it instead of sleeping). */
+extern FILE* sexp_verif_sched_trace_line (void);
+static FILE *sexp_verif_fh;
+#define sexp_verif_tracing() ((sexp_verif_fh = sexp_verif_sched_trace_line()) != NULL)
+extern int sexp_verif_sched_generation;
+static int sexp_verif_generation_seen;
+static struct timeval sexp_verif_now;
+static int sexp_verif_quiet;
+static int sexp_verif_virtual = -1;
+static struct timeval sexp_verif_vclock;
+static void sexp_verif_clock_advance (long usecs) {
+  sexp_verif_vclock.tv_usec += usecs;
+  sexp_verif_vclock.tv_sec += sexp_verif_vclock.tv_usec / 1000000;
+  sexp_verif_vclock.tv_usec %= 1000000;
+}
+static int sexp_verif_gettimeofday (struct timeval *tv, void *tz) {
+  int res = 0;
+  char *s;
+  if (sexp_verif_virtual < 0 || sexp_verif_generation_seen != sexp_verif_sched_generation) {
+    sexp_verif_generation_seen = sexp_verif_sched_generation;
+    sexp_verif_vclock.tv_usec = 0;
+    s = getenv("CHIBI_VERIF_SCHED_CLOCK");
+    sexp_verif_virtual = (s && *s) ? 1 : 0;
+    if (sexp_verif_virtual) sexp_verif_vclock.tv_sec = atol(s);
+  }
+  if (sexp_verif_virtual) {
+    sexp_verif_clock_advance(1);
+    *tv = sexp_verif_vclock;
+  } else {
+    res = gettimeofday(tv, tz);
+  }
+  sexp_verif_now = *tv;
+  return res;
+}
+static int sexp_verif_usleep (long usecs) {
+  if (sexp_verif_virtual > 0) {
+    sexp_verif_clock_advance(usecs);
+    return 0;
+  }
+  return usleep(usecs);
+}
+#define gettimeofday(tv, tz) sexp_verif_gettimeofday(tv, tz)
+#define usleep(u) sexp_verif_usleep(u)
+static void sexp_verif_ptr (FILE *fh, sexp x) {
+  if (x && sexp_pointerp(x)) fprintf(fh, "%p", (void*)x);
+  else fprintf(fh, "%s", (x == SEXP_TRUE) ? "#t" : "-");
+}
+static void sexp_verif_thread (FILE *fh, sexp t) {
+  if (!(t && sexp_contextp(t))) return;
+  fprintf(fh, " %p:%d%d%d:", (void*)t, sexp_context_waitp(t) ? 1 : 0,
+          sexp_context_timeoutp(t) ? 1 : 0, sexp_context_refuel(t) > 0 ? 1 : 0);
+  sexp_verif_ptr(fh, sexp_context_event(t));
+  fprintf(fh, ":%ld.%06ld", (long)sexp_context_timeval(t).tv_sec, (long)sexp_context_timeval(t).tv_usec);
+}
+static void sexp_verif_timeout (FILE *fh, sexp timeout) {
+  double d;
+  if (sexp_fixnump(timeout)) {
+    fprintf(fh, " r%ld.0", (long)sexp_unbox_fixnum(timeout));
+  } else if (sexp_flonump(timeout)) {
+    d = sexp_flonum_value(timeout);
+    fprintf(fh, " r%ld.%ld", (long)trunc(d), (long)((d-trunc(d))*1000000));
+  } else if (timeout && sexp_pointerp(timeout) && sexp_contextp(timeout)) {
+    fprintf(fh, " c");
+  } else if (timeout && sexp_realp(timeout)) {
+    fprintf(fh, " other");
+  } else {
+    fprintf(fh, " n");
+  }
+}
+/* the state after an operation; x1, x2 are extra threads to describe, m a mutex or NULL */
+static void sexp_verif_state (sexp ctx, FILE *fh, sexp x1, sexp x2, sexp m) {
+  sexp ls;
+  int i;
+  fprintf(fh, " | C %p F", (void*)ctx);
+  for (i=0, ls=sexp_global(ctx, SEXP_G_THREADS_FRONT); sexp_pairp(ls) && i<1000; ls=sexp_cdr(ls), i++)
+    fprintf(fh, " %p", (void*)sexp_car(ls));
+  fprintf(fh, " B ");
+  if (sexp_pairp(sexp_global(ctx, SEXP_G_THREADS_BACK)))
+    fprintf(fh, "%p%s", (void*)sexp_car(sexp_global(ctx, SEXP_G_THREADS_BACK)),
+            sexp_pairp(sexp_cdr(sexp_global(ctx, SEXP_G_THREADS_BACK))) ? "+" : "");
+  else
+    fprintf(fh, "-");
+  fprintf(fh, " P");
+  for (i=0, ls=sexp_global(ctx, SEXP_G_THREADS_PAUSED); sexp_pairp(ls) && i<1000; ls=sexp_cdr(ls), i++)
+    fprintf(fh, " %p", (void*)sexp_car(ls));
+  fprintf(fh, " T");
+  sexp_verif_thread(fh, ctx);
+  if (x1 != ctx) sexp_verif_thread(fh, x1);
+  if (x2 != ctx && x2 != x1) sexp_verif_thread(fh, x2);
+  for (i=0, ls=sexp_global(ctx, SEXP_G_THREADS_FRONT); sexp_pairp(ls) && i<1000; ls=sexp_cdr(ls), i++)
+    sexp_verif_thread(fh, sexp_car(ls));
+  for (i=0, ls=sexp_global(ctx, SEXP_G_THREADS_PAUSED); sexp_pairp(ls) && i<1000; ls=sexp_cdr(ls), i++)
+    sexp_verif_thread(fh, sexp_car(ls));
+  if (m && sexp_pointerp(m)) {
+    fprintf(fh, " M %p:%d:", (void*)m, sexp_truep(sexp_mutex_lockp(m)) ? 1 : 0);
+    sexp_verif_ptr(fh, sexp_mutex_thread(m));
+  }
+  fprintf(fh, "\n");
+  fflush(fh);
+}
+#define sexp_verif_res(r) (((r) == SEXP_TRUE) ? "#t" : ((r) == SEXP_FALSE) ? "#f" : "other")
+#endif  /* SEXP_USE_VERIF_HOOKS */
+
 static void sexp_define_type_predicate_by_tag (sexp ctx, sexp env, const char *cname, sexp_uint_t type) {
   sexp_gc_var2(name, op);
   sexp_gc_preserve2(ctx, name, op);
@@ -120,6 +229,12 @@ sexp sexp_thread_start (sexp ctx, sexp self, sexp_sint_t n, sexp thread) {
   } else {            /* init queue */
     sexp_global(ctx, SEXP_G_THREADS_BACK) = sexp_global(ctx, SEXP_G_THREADS_FRONT) = cell;
   }
+#if SEXP_USE_VERIF_HOOKS
+  if (sexp_verif_tracing() && !sexp_verif_quiet) {
+    fprintf(sexp_verif_fh, "start %p -> other", (void*)thread);
+    sexp_verif_state(ctx, sexp_verif_fh, thread, NULL, NULL);
+  }
+#endif
   return thread;
 }
 
@@ -138,6 +253,9 @@ static int sexp_delete_list (sexp ctx, int global, sexp x) {
 
 sexp sexp_thread_terminate (sexp ctx, sexp self, sexp_sint_t n, sexp thread) {
   sexp res = sexp_make_boolean(ctx == thread);
+#if SEXP_USE_VERIF_HOOKS
+  sexp sexp_verif_term_arg = thread;
+#endif
   sexp_assert_type(ctx, sexp_contextp, SEXP_CONTEXT, thread);
   /* terminate the thread and all children */
   for ( ; thread && sexp_contextp(thread); thread=sexp_context_child(thread)) {
@@ -150,9 +268,21 @@ sexp sexp_thread_terminate (sexp ctx, sexp self, sexp_sint_t n, sexp thread) {
       sexp_context_refuel(thread) = 0;
     }
     /* unblock the thread if needed so it can be scheduled and terminated */
+#if SEXP_USE_VERIF_HOOKS
+    sexp_verif_quiet++;
+#endif
     if (sexp_delete_list(ctx, SEXP_G_THREADS_PAUSED, thread))
       sexp_thread_start(ctx, self, 1, thread);
+#if SEXP_USE_VERIF_HOOKS
+    sexp_verif_quiet--;
+#endif
   }
+#if SEXP_USE_VERIF_HOOKS
+  if (sexp_verif_tracing()) {
+    fprintf(sexp_verif_fh, "term %p -> %s", (void*)sexp_verif_term_arg, sexp_verif_res(res));
+    sexp_verif_state(ctx, sexp_verif_fh, sexp_verif_term_arg, NULL, NULL);
+  }
+#endif
   /* return true if terminating self, then we can yield */
   return res;
 }
@@ -211,12 +341,28 @@ static void sexp_insert_timed (sexp ctx, sexp thread, sexp timeout) {
 sexp sexp_thread_join (sexp ctx, sexp self, sexp_sint_t n, sexp thread, sexp timeout) {
   sexp_assert_type(ctx, sexp_contextp, SEXP_CONTEXT, thread);
   if (sexp_context_refuel(thread) <= 0) /* return true if already terminated */ {
+#if SEXP_USE_VERIF_HOOKS
+    if (sexp_verif_tracing()) {
+      fprintf(sexp_verif_fh, "join %p", (void*)thread);
+      sexp_verif_timeout(sexp_verif_fh, timeout);
+      fprintf(sexp_verif_fh, " 0.0 -> #t");
+      sexp_verif_state(ctx, sexp_verif_fh, thread, NULL, NULL);
+    }
+#endif
     return SEXP_TRUE;
   }
   sexp_context_timeoutp(ctx) = 0;
   sexp_context_waitp(ctx) = 1;
   sexp_context_event(ctx) = thread;
   sexp_insert_timed(ctx, ctx, timeout);
+#if SEXP_USE_VERIF_HOOKS
+  if (sexp_verif_tracing()) {
+    fprintf(sexp_verif_fh, "join %p", (void*)thread);
+    sexp_verif_timeout(sexp_verif_fh, timeout);
+    fprintf(sexp_verif_fh, " %ld.%06ld -> #f", (long)sexp_verif_now.tv_sec, (long)sexp_verif_now.tv_usec);
+    sexp_verif_state(ctx, sexp_verif_fh, thread, NULL, NULL);
+  }
+#endif
   return SEXP_FALSE;
 }
 
@@ -227,6 +373,15 @@ sexp sexp_thread_sleep (sexp ctx, sexp self, sexp_sint_t n, sexp timeout) {
     sexp_context_event(ctx) = SEXP_FALSE;
     sexp_insert_timed(ctx, ctx, timeout);
   }
+#if SEXP_USE_VERIF_HOOKS
+  if (sexp_verif_tracing()) {
+    fprintf(sexp_verif_fh, "sleep");
+    if (timeout == SEXP_TRUE) fprintf(sexp_verif_fh, " t");
+    else sexp_verif_timeout(sexp_verif_fh, timeout);
+    fprintf(sexp_verif_fh, " %ld.%06ld -> #f", (long)sexp_verif_now.tv_sec, (long)sexp_verif_now.tv_usec);
+    sexp_verif_state(ctx, sexp_verif_fh, NULL, NULL, NULL);
+  }
+#endif
   return SEXP_FALSE;
 }
 
@@ -251,11 +406,27 @@ sexp sexp_mutex_lock (sexp ctx, sexp self, sexp_sint_t n, sexp mutex, sexp timeo
   if (sexp_not(sexp_mutex_lockp(mutex))) {
     sexp_mutex_lockp(mutex) = SEXP_TRUE;
     sexp_mutex_thread(mutex) = thread;
+#if SEXP_USE_VERIF_HOOKS
+    if (sexp_verif_tracing()) {
+      fprintf(sexp_verif_fh, "lock %p", (void*)mutex);
+      sexp_verif_timeout(sexp_verif_fh, timeout);
+      fprintf(sexp_verif_fh, " 0.0 -> #t");
+      sexp_verif_state(ctx, sexp_verif_fh, NULL, NULL, mutex);
+    }
+#endif
     return SEXP_TRUE;
   } else {
     sexp_context_waitp(ctx) = 1;
     sexp_context_event(ctx) = mutex;
     sexp_insert_timed(ctx, ctx, timeout);
+#if SEXP_USE_VERIF_HOOKS
+    if (sexp_verif_tracing()) {
+      fprintf(sexp_verif_fh, "lock %p", (void*)mutex);
+      sexp_verif_timeout(sexp_verif_fh, timeout);
+      fprintf(sexp_verif_fh, " %ld.%06ld -> #f", (long)sexp_verif_now.tv_sec, (long)sexp_verif_now.tv_usec);
+      sexp_verif_state(ctx, sexp_verif_fh, NULL, NULL, mutex);
+    }
+#endif
     return SEXP_FALSE;
   }
 }
@@ -288,8 +459,22 @@ sexp sexp_mutex_unlock (sexp ctx, sexp self, sexp_sint_t n, sexp mutex, sexp con
     sexp_context_waitp(ctx) = 1;
     sexp_context_event(ctx) = condvar;
     sexp_insert_timed(ctx, ctx, timeout);
+#if SEXP_USE_VERIF_HOOKS
+    if (sexp_verif_tracing()) {
+      fprintf(sexp_verif_fh, "unlock %p %p", (void*)mutex, (void*)condvar);
+      sexp_verif_timeout(sexp_verif_fh, timeout);
+      fprintf(sexp_verif_fh, " %ld.%06ld -> #f", (long)sexp_verif_now.tv_sec, (long)sexp_verif_now.tv_usec);
+      sexp_verif_state(ctx, sexp_verif_fh, NULL, NULL, mutex);
+    }
+#endif
     return SEXP_FALSE;
   }
+#if SEXP_USE_VERIF_HOOKS
+  if (sexp_verif_tracing()) {
+    fprintf(sexp_verif_fh, "unlock %p - n 0.0 -> #t", (void*)mutex);
+    sexp_verif_state(ctx, sexp_verif_fh, NULL, NULL, mutex);
+  }
+#endif
   return SEXP_TRUE;
 }
 
@@ -308,8 +493,20 @@ sexp sexp_condition_variable_signal (sexp ctx, sexp self, sexp_sint_t n, sexp co
       if (! sexp_pairp(sexp_cdr(ls2)))
         sexp_global(ctx, SEXP_G_THREADS_BACK) = ls2;
       sexp_context_waitp(sexp_car(ls2)) = sexp_context_timeoutp(sexp_car(ls2)) = 0;
+#if SEXP_USE_VERIF_HOOKS
+      if (sexp_verif_tracing()) {
+        fprintf(sexp_verif_fh, "signal %p -> #t", (void*)condvar);
+        sexp_verif_state(ctx, sexp_verif_fh, NULL, NULL, NULL);
+      }
+#endif
       return SEXP_TRUE;
     }
+#if SEXP_USE_VERIF_HOOKS
+  if (sexp_verif_tracing()) {
+    fprintf(sexp_verif_fh, "signal %p -> #f", (void*)condvar);
+    sexp_verif_state(ctx, sexp_verif_fh, NULL, NULL, NULL);
+  }
+#endif
   return SEXP_FALSE;
 }
 
@@ -423,11 +620,18 @@ sexp sexp_scheduler (sexp ctx, sexp self, sexp_sint_t n, sexp root_thread) {
   struct pollfd *pfds;
   suseconds_t usecs = 0;
   sexp res, ls1, ls2, evt, runner, paused, front, pollfds;
+#if SEXP_USE_VERIF_HOOKS
+  struct timeval sexp_verif_sched_t1 = {0, 0}, sexp_verif_sched_t2 = {0, 0};
+#endif
   sexp_gc_var1(tmp);
   sexp_gc_preserve1(ctx, tmp);
 
   front  = sexp_global(ctx, SEXP_G_THREADS_FRONT);
   paused = sexp_global(ctx, SEXP_G_THREADS_PAUSED);
+
+#if SEXP_USE_VERIF_HOOKS
+  sexp_verif_now.tv_sec = sexp_verif_now.tv_usec = 0;
+#endif
 
   /* check signals */
   if (sexp_global(ctx, SEXP_G_THREADS_SIGNALS) != SEXP_ZERO) {
@@ -531,6 +735,9 @@ sexp sexp_scheduler (sexp ctx, sexp self, sexp_sint_t n, sexp root_thread) {
   /* check timeouts */
   if (sexp_pairp(paused)) {
     if (gettimeofday(&tval, NULL) == 0) {
+#if SEXP_USE_VERIF_HOOKS
+      sexp_verif_sched_t1 = tval;
+#endif
       /* the running thread is never in the run queue: if it is paused and its */
       /* own timeout has already passed wake it in place, otherwise it would be */
       /* queued twice and its next timed wait would lose the timeout */
@@ -622,6 +829,9 @@ sexp sexp_scheduler (sexp ctx, sexp self, sexp_sint_t n, sexp root_thread) {
     } else {
       /* wait until the next timeout, or at most 10ms */
       gettimeofday(&tval, NULL);
+#if SEXP_USE_VERIF_HOOKS
+      sexp_verif_sched_t2 = tval;
+#endif
       if (tval.tv_sec <= sexp_context_timeval(res).tv_sec) {
         usecs = (sexp_context_timeval(res).tv_sec - tval.tv_sec) * 1000000;
         if (tval.tv_usec < sexp_context_timeval(res).tv_usec || usecs > 0)
@@ -638,6 +848,17 @@ sexp sexp_scheduler (sexp ctx, sexp self, sexp_sint_t n, sexp root_thread) {
     usleep(usecs);
   }
 
+#if SEXP_USE_VERIF_HOOKS
+  if (sexp_verif_tracing()
+      && (res != ctx || sexp_context_waitp(ctx) || sexp_context_refuel(ctx) <= 0
+          || sexp_pairp(sexp_global(ctx, SEXP_G_THREADS_FRONT))
+          || sexp_pairp(sexp_global(ctx, SEXP_G_THREADS_PAUSED)))) {
+    fprintf(sexp_verif_fh, "sched %p %ld.%06ld %ld.%06ld -> %p", (void*)ctx,
+            (long)sexp_verif_sched_t1.tv_sec, (long)sexp_verif_sched_t1.tv_usec,
+            (long)sexp_verif_sched_t2.tv_sec, (long)sexp_verif_sched_t2.tv_usec, (void*)res);
+    sexp_verif_state(res, sexp_verif_fh, ctx, NULL, NULL);
+  }
+#endif
   sexp_gc_release1(ctx);
   return res;
 }
